@@ -14,41 +14,51 @@ EXTENDS TokenRef
 VARIABLES phase, lay, req, post, dmg
 vars == <<phase, lay, req, post, dmg>>
 
-NoReq == [op |-> "none", i |-> 0, lm |-> "none", tm |-> "none"]
+NoReq == [op |-> "none", i |-> 0, lm |-> "none", tm |-> "none", el |-> 0, et |-> 0]
 Init == /\ phase = "layout" /\ lay \in Layouts /\ req = NoReq /\ post = <<>> /\ dmg = "none"
 
 Pre == LinesOf(lay)
 
+(* e = <<eatL, eatT>>: the space counts of the option, i.e. how many empty lines *)
+(* next to the removed region go with it                                        *)
 DoDelete == /\ phase = "layout"
-            /\ \E i \in 1..NStmt, lm \in LeadModes, tm \in TrailModes, eat \in BOOLEAN :
-                 /\ req' = [op |-> "delete", i |-> i, lm |-> lm, tm |-> tm]
-                 /\ post' = RefRemove(Pre, i, lm, tm, <<>>, eat, FALSE)
+            /\ \E i \in 1..NStmt, lm \in LeadModes, tm \in TrailModes, e \in EatOpts :
+                 /\ req' = [op |-> "delete", i |-> i, lm |-> lm, tm |-> tm, el |-> e[1], et |-> e[2]]
+                 /\ post' = RefRemove(Pre, i, lm, tm, <<>>, e[1], e[2], FALSE)
             /\ phase' = "edited" /\ UNCHANGED <<lay, dmg>>
 DoReplace == /\ phase = "layout"
-             /\ \E i \in 1..NStmt, lm \in LeadModes, tm \in TrailModes, add \in BOOLEAN :
-                  /\ req' = [op |-> "replace", i |-> i, lm |-> lm, tm |-> tm]
-                  /\ post' = RefRemove(Pre, i, lm, tm, <<StmtLine(NewId, 0, 0)>>, FALSE, add)
+             /\ \E i \in 1..NStmt, lm \in LeadModes, tm \in TrailModes, e \in EatOpts, add \in BOOLEAN :
+                  /\ req' = [op |-> "replace", i |-> i, lm |-> lm, tm |-> tm, el |-> e[1], et |-> e[2]]
+                  /\ post' = RefRemove(Pre, i, lm, tm, <<NewId>>, e[1], e[2], add)
              /\ phase' = "edited" /\ UNCHANGED <<lay, dmg>>
 DoInsert == /\ phase = "layout"
             /\ \E i \in 1..(NStmt + 1), add \in BOOLEAN :       \* (an insertion selects no trivia: one option value)
-                 /\ req' = [op |-> "insert", i |-> i, lm |-> "block", tm |-> "line"]
+                 /\ req' = [op |-> "insert", i |-> i, lm |-> "block", tm |-> "line", el |-> 0, et |-> 0]
                  /\ post' = RefInsert(Pre, i, add)
             /\ phase' = "edited" /\ UNCHANGED <<lay, dmg>>
 
+SpOf(n) == [n |-> n, sg |-> IF n > 0 THEN "+" ELSE ""]
 CaseNow == CaseOf(Pre, post,
                   IF req.op = "insert" THEN req.i - 1 ELSE req.i - 1,
                   IF req.op = "insert" THEN req.i - 1 ELSE req.i,
-                  IF req.op = "insert" THEN TvOf(Pre, 1, "block", "line") ELSE TvOf(Pre, req.i, req.lm, req.tm),
+                  IF req.op = "insert" THEN TvOf(Pre, 1, "block", "line", [lead |-> NoSpace, trail |-> NoSpace])
+                  ELSE TvOf(Pre, req.i, req.lm, req.tm, [lead |-> SpOf(req.el), trail |-> SpOf(req.et)]),
                   req.op = "delete")
 
 (* ---- damages: one fault in the post text, far from or next to the element --- *)
-(* statements whose own line and surrounding trivia the request cannot touch   *)
-Edited == IF req.op = "insert" THEN {} ELSE {req.i}
+(* statements whose physical line the request touches: the statements that     *)
+(* share the line of the edited one; for an insertion the two neighbours when  *)
+(* they share a line (it is broken there)                                      *)
+IdsOf(x) == {x.ids[q] : q \in DOMAIN x.ids}
+Touched == IF req.op = "insert"
+           THEN (IF req.i > 1 /\ req.i <= NStmt /\ PosOfStmt(Pre, req.i - 1) = PosOfStmt(Pre, req.i)
+                 THEN IdsOf(Pre[PosOfStmt(Pre, req.i)]) ELSE {})
+           ELSE IdsOf(Pre[PosOfStmt(Pre, req.i)])
 (* lines of the post text that come unchanged from a region the window does    *)
-(* not cover: the own line of another statement, and the trivia above          *)
-(* statement j for j < first affected statement                                *)
-FirstAffected == IF req.op = "insert" THEN req.i ELSE req.i     \* trivia above statement FirstAffected is in the window
-FarStmt(x) == x.k = "stmt" /\ x.id # NewId /\ x.id \notin Edited
+(* not cover: the line of other statements, and the trivia above statement j   *)
+(* for j < the edited statement (comment ids are 10 * j + position)            *)
+FirstAffected == req.i                          \* trivia above statement FirstAffected may be in the window
+FarStmt(x) == x.k = "stmt" /\ NewId \notin IdsOf(x) /\ IdsOf(x) \cap Touched = {}
 FarCmt(x)  == x.k = "cmt" /\ x.id < 100 /\ x.id \div 10 < FirstAffected
 NearCmt(x) == x.k = "cmt" /\ ~FarCmt(x)        \* a comment of the window that the reference edit kept
 
@@ -62,9 +72,9 @@ DropFarComment  == \E p \in DOMAIN post : FarCmt(post[p])  /\ Step("drop-far-com
 DropNearComment == \E p \in DOMAIN post : NearCmt(post[p]) /\ Step("drop-near-comment", Drop(post, p))
 DupComment      == \E p \in DOMAIN post : post[p].k = "cmt" /\ Step("dup-comment", Dup(post, p))
 DropLineComment == \E p \in DOMAIN post : FarStmt(post[p]) /\ post[p].tr # 0
-                                           /\ Step("drop-line-comment", Put(post, p, StmtLine(post[p].id, 0, 0)))
+                                           /\ Step("drop-line-comment", Put(post, p, StmtLine(post[p].ids, 0, 0)))
 ReindentFarLine == \E p \in DOMAIN post : FarStmt(post[p])
-                                           /\ Step("reindent-far-line", Put(post, p, StmtLine(post[p].id, post[p].tr, 1)))
+                                           /\ Step("reindent-far-line", Put(post, p, StmtLine(post[p].ids, post[p].tr, 1)))
 SwapFarStatements == \E p \in DOMAIN post : FarStmt(post[p]) /\ p < Len(post) /\ FarStmt(post[p + 1])
                                            /\ Step("swap-far-statements", Put(Put(post, p, post[p + 1]), p + 1, post[p]))
 DropFarBlank    == \E p \in DOMAIN post : /\ post[p].k = "blank" /\ p > 1 /\ FarCmt(post[p - 1])
@@ -77,7 +87,7 @@ DropNearBlank   == \E p \in DOMAIN post : /\ post[p].k = "blank" /\ p > 1 /\ p <
                                            /\ post[p - 1].id \div 10 \in {req.i, req.i + 1}     \* inside the window
                                            /\ Step("drop-near-blank", Drop(post, p))
 GlueComment     == \E p \in DOMAIN post : /\ post[p].k = "cmt" /\ p > 1 /\ FarStmt(post[p - 1]) /\ post[p - 1].tr = 0
-                                           /\ Step("glue-comment", Drop(Put(post, p - 1, StmtLine(post[p - 1].id, post[p].id, 0)), p))
+                                           /\ Step("glue-comment", Drop(Put(post, p - 1, StmtLine(post[p - 1].ids, post[p].id, 0)), p))
 
 Damage == \/ DropFarComment \/ DropNearComment \/ DupComment \/ DropLineComment \/ ReindentFarLine
           \/ SwapFarStatements \/ DropFarBlank \/ DropNearBlank \/ GlueComment
